@@ -280,6 +280,16 @@ Theorem C16_attachment_unrepaired_gate_refuted :
 Proof. exact unrepaired_gate. Qed.
 Print Assumptions C16_attachment_unrepaired_gate_refuted.
 
+(* ---------------------------------------------------------------- .eml attachments *)
+(* one EmailAttachment per mailparser attachment record, in order: none is dropped (an empty payload included), none
+   changes place; file name and MIME type with their defaults *)
+Theorem C16_eml_attachments_count :
+  forall (T : C07.Model.tables) (recs : list mp_attachment),
+    List.length (eml_attachments T recs) = List.length recs /\
+    forall i a, nth_error recs i = Some a -> nth_error (eml_attachments T recs) i = Some (eml_attachment T a).
+Proof. exact eml_attachments_count. Qed.
+Print Assumptions C16_eml_attachments_count.
+
 (* ---------------------------------------------------------------- .msg (msg_parser / olefile are oracles) *)
 (* "Name <address>" without further angle brackets: the name (outer white space and quotes removed) and the address *)
 Theorem C16_msg_recipient_angle :
